@@ -130,6 +130,15 @@ def build_point(desc, material_as="object"):
               "extra": {col: [...]}, "meta": {...}}"""
     units = dict(desc["units"])
     mdesc = desc["material"]
+    if desc.get("user_fluid"):
+        # an adsorbate without backend that carries user-supplied constants (registered under its name; the next
+        # reset_registries() removes it)
+        from pbt import ref_units as _ru
+        props = _ru.user_fluid_properties(_ru.UserFluid(*desc["user_fluid"]))
+        for a in list(ADSORBATE_LIST):
+            if a.name == desc["adsorbate"]:
+                ADSORBATE_LIST.remove(a)
+        Adsorbate(desc["adsorbate"], store=True, **props)
     if material_as == "object":
         material = build_material(mdesc)
     elif material_as == "dict":
